@@ -906,7 +906,12 @@ def run(ctx):
 
 
 def replay(ctx, case):
-    scen = case.get('case', {})
+    scen = case.get('case')
+    if scen is None and case.get('divergences'):
+        scen = case['divergences'][0].get('case')
+    if not scen:
+        print('REPLAY: the file records no failing input (kind=%s)' % case.get('kind'))
+        return 0
     if scen.get('probe'):
         probe_label_named_pid(ctx)
     else:
